@@ -70,6 +70,16 @@ func genMetaScript(r *rand.Rand, kind Kind, half bool) *Script {
 		// (binary values that are not valid UTF-8 run into F-C03-1 over HTTP: only a third of these scripts use one)
 		h = append(h, Op{Op: "settrl", MD: metadata.MD{"rep-key": {"t2", "t3"}, "late-bin": {pick(r, "\x00\xff", "\x00\x7f", "\x01\x02")}}})
 	}
+	if r.Intn(5) == 0 {
+		// per-RPC credentials whose metadata shares a key with the caller's: the caller's values stay
+		s.CredMD = map[string]string{"from-creds-only": "c0"}
+		for k := range s.ReqMD {
+			if !strings.HasSuffix(k, "-bin") {
+				s.CredMD[k] = "from-creds"
+				break
+			}
+		}
+	}
 	// in a full-duplex handler the receive part stays first (keeps the script deadlock-free)
 	s.Handler = append(recvs, h...)
 	if kind != Unary {
@@ -128,8 +138,37 @@ func metaOracle(run *Run) [][2]string {
 	if !returned {
 		return probs
 	}
-	// (a) request metadata
-	if ok, why := mdContains(run.HandlerMD, run.S.ReqMD); !ok {
+	// (a) request metadata (values of per-RPC credentials come after the caller's own under the same key)
+	// under a key that the credentials use as well, the caller's values all arrive, in their order, next to
+	// the credentials' value (before or after: transports differ)
+	wantReq := run.S.ReqMD
+	if len(run.S.CredMD) > 0 {
+		wantReq = metadata.MD{}
+		for k, v := range run.S.ReqMD {
+			cv, shared := run.S.CredMD[k]
+			if !shared {
+				wantReq[k] = v
+				continue
+			}
+			got := run.HandlerMD[k]
+			rest := append([]string(nil), got...)
+			for i, g := range rest {
+				if g == cv {
+					rest = append(rest[:i:i], rest[i+1:]...)
+					break
+				}
+			}
+			if len(rest) != len(got)-1 || strings.Join(rest, "\x00") != strings.Join(v, "\x00") {
+				add("request-md", fmt.Sprintf("key %q shared with per-RPC credentials: handler got %q, caller attached %q and the credentials %q", k, got, v, cv))
+			}
+		}
+		for k, cv := range run.S.CredMD {
+			if _, shared := run.S.ReqMD[k]; !shared {
+				wantReq[k] = []string{cv}
+			}
+		}
+	}
+	if ok, why := mdContains(run.HandlerMD, wantReq); !ok {
 		add("request-md", "handler's incoming metadata lacks/changes caller pairs: "+why)
 	}
 	// (b,c) model of the handler's header/trailer calls
